@@ -401,10 +401,14 @@ macro_rules! float_forms {
             let (c1, c2) = (Basis3::from(cast(u1)), Basis3::from(cast(u2)));
             let r = forms4!(c1, c2, *, "basis3-mul-forms", "Basis3 * Basis3");
             same!(Matrix3::from(c1) * Matrix3::from(c2), Matrix3::from(r), "basis3-mul-value", "Basis3 product vs matrix product");
-            let lb2 = [b1, b2, b1];
+            // Basis2 also holds reflections (look_at_stable with flip), which do not commute with rotations
+            let dir = Vector2 { x: d.f64_in(-3.0, 3.0) as F + 0.125, y: d.f64_in(-3.0, 3.0) as F };
+            let refl: Basis2<F> = Basis2::look_at_stable(dir, true);
+            let _ = forms4!(refl, b1, *, "basis2-mul-forms", "Basis2(reflection) * Basis2");
+            let lb2 = match d.int(0, 3) { 0 => [b1, b2, b1], 1 => [refl, b1, b2], 2 => [b1, refl, b2], _ => [b1, b2, refl] };
             let pv: Basis2<F> = lb2.iter().cloned().product();
             let pr: Basis2<F> = lb2.iter().product();
-            let fold = ((Basis2::<F>::one() * b1) * b2) * b1;
+            let fold = ((Basis2::<F>::one() * lb2[0]) * lb2[1]) * lb2[2];
             same!(fold, pv, "basis2-product-values", "Basis2 Product over values");
             same!(fold, pr, "basis2-product-refs", "Basis2 Product over references");
             let lb3 = [c1, c2];
